@@ -35,7 +35,7 @@ theorem dec4 (lead b1 b2 b3 : Byte) (r : List Byte) (h0 : ¬ lead ≤ 0x7F#8) (h
 
 macro "cp_decide" : tactic =>
   `(tactic| (simp only [Byte, inR, isContinuationByte, cp2, cp3, cp4] at *
-             bv_decide (config := { timeout := 120 })))
+             bv_decide (timeout := 300)))
 
 /-- `decode_code_point(encode_code_point(cp)) = (cp, len)` for every scalar value; the decoder
 ignores the zero padding of the four-byte buffer; non-scalar values are rejected by the encoder. -/
@@ -54,8 +54,8 @@ theorem decode_encode_all (cp : BitVec 32) :
       refine ⟨by simp, ?_⟩
       intro buf len h; simp only [Option.some.injEq, Prod.mk.injEq] at h
       obtain ⟨rfl, rfl⟩ := h
-      have hl : cp.setWidth 8 ≤ 0x7F#8 := by bv_decide
-      have hc : (cp.setWidth 8).setWidth 32 = cp := by bv_decide
+      have hl : cp.setWidth 8 ≤ 0x7F#8 := by bv_decide (timeout := 300)
+      have hc : (cp.setWidth 8).setWidth 32 = cp := by bv_decide (timeout := 300)
       simp only [List.take_succ_cons, List.take_zero]
       rw [dec1 _ _ hl, dec1 _ _ hl, hc]; exact ⟨rfl, rfl⟩
     · simp only [h1, if_false]
@@ -99,13 +99,13 @@ theorem decode_encode_all (cp : BitVec 32) :
 
 theorem enc_of_class1 (cp : BitVec 32) (h : cp < 0x80#32) :
     encodeCodePoint cp = some ([cp.setWidth 8, 0, 0, 0], 1) := by
-  have hns : ¬ ((0xD800#32 ≤ cp ∧ cp ≤ 0xDFFF#32) ∨ cp > 0x10FFFF#32) := by bv_decide
+  have hns : ¬ ((0xD800#32 ≤ cp ∧ cp ≤ 0xDFFF#32) ∨ cp > 0x10FFFF#32) := by bv_decide (timeout := 300)
   simp [encodeCodePoint, hns, h]
 
 theorem enc_of_class2 (cp : BitVec 32) (h1 : ¬ cp < 0x80#32) (h2 : cp < 0x800#32) :
     encodeCodePoint cp =
       some ([0xC0#8 ||| (cp >>> 6).setWidth 8, 0x80#8 ||| (cp &&& 0x3F#32).setWidth 8, 0, 0], 2) := by
-  have hns : ¬ ((0xD800#32 ≤ cp ∧ cp ≤ 0xDFFF#32) ∨ cp > 0x10FFFF#32) := by bv_decide
+  have hns : ¬ ((0xD800#32 ≤ cp ∧ cp ≤ 0xDFFF#32) ∨ cp > 0x10FFFF#32) := by bv_decide (timeout := 300)
   simp [encodeCodePoint, hns, h1, h2]
 
 theorem enc_of_class3 (cp : BitVec 32) (h2 : ¬ cp < 0x800#32) (h3 : cp < 0x10000#32)
@@ -116,8 +116,8 @@ theorem enc_of_class3 (cp : BitVec 32) (h2 : ¬ cp < 0x800#32) (h3 : cp < 0x1000
   have hns : ¬ ((0xD800#32 ≤ cp ∧ cp ≤ 0xDFFF#32) ∨ cp > 0x10FFFF#32) := by
     intro h; rcases h with h | h
     · exact hs h
-    · bv_decide
-  have h1 : ¬ cp < 0x80#32 := by bv_decide
+    · bv_decide (timeout := 300)
+  have h1 : ¬ cp < 0x80#32 := by bv_decide (timeout := 300)
   simp [encodeCodePoint, hns, h1, h2, h3]
 
 theorem enc_of_class4 (cp : BitVec 32) (h3 : ¬ cp < 0x10000#32) (ho : ¬ cp > 0x10FFFF#32) :
@@ -126,10 +126,10 @@ theorem enc_of_class4 (cp : BitVec 32) (h3 : ¬ cp < 0x10000#32) (ho : ¬ cp > 0
              0x80#8 ||| ((cp >>> 6) &&& 0x3F#32).setWidth 8, 0x80#8 ||| (cp &&& 0x3F#32).setWidth 8], 4) := by
   have hns : ¬ ((0xD800#32 ≤ cp ∧ cp ≤ 0xDFFF#32) ∨ cp > 0x10FFFF#32) := by
     intro h; rcases h with h | h
-    · bv_decide
+    · bv_decide (timeout := 300)
     · exact ho h
-  have h1 : ¬ cp < 0x80#32 := by bv_decide
-  have h2 : ¬ cp < 0x800#32 := by bv_decide
+  have h1 : ¬ cp < 0x80#32 := by bv_decide (timeout := 300)
+  have h2 : ¬ cp < 0x800#32 := by bv_decide (timeout := 300)
   simp [encodeCodePoint, hns, h1, h2, h3]
 
 /-- `encode_code_point(decode_code_point(bytes).cp)` reproduces the decoded bytes: whenever
@@ -145,9 +145,9 @@ theorem encode_decode_all (bs : List Byte) (cp : BitVec 32) (n : Nat)
     · rw [dec1 _ _ h0] at h
       simp only [Option.some.injEq, Prod.mk.injEq] at h
       obtain ⟨rfl, rfl⟩ := h
-      rw [enc_of_class1 _ (by bv_decide)]
+      rw [enc_of_class1 _ (by bv_decide (timeout := 300))]
       refine ⟨_, rfl, ?_⟩
-      have : (lead.setWidth 32).setWidth 8 = lead := by bv_decide
+      have : (lead.setWidth 32).setWidth 8 = lead := by bv_decide (timeout := 300)
       simp [this]
     · by_cases hA : inR 0xC0#8 0xDF#8 lead = true
       · match r with
